@@ -243,11 +243,40 @@ Definition answer (idx : list series) (ext : lset) (ext_ok : bool) (ms : list ma
                 | cs => [(extend (fst s) ext, cs)]
                 end) (select idx ms).
 
+(* ---- gapBasedPartitioner.Partition --------------------------------------------- *)
+(* ranges (start, end) sorted by start; a part = (Start, End, ElemRng[0], ElemRng[1]) *)
+Definition part := (Z * Z * nat * nat)%type.
+
+(* the inner `for ; k < length; k++` loop: grow the part until a large gap *)
+Fixpoint grow (maxGap pend : Z) (rs : list (Z * Z)) (k : nat) : Z * list (Z * Z) * nat :=
+  match rs with
+  | [] => (pend, [], k)
+  | (s, e) :: r =>
+      if pend + maxGap <? s then (pend, rs, k)
+      else grow maxGap (if pend <=? e then e else pend) r (S k)
+  end.
+
+Fixpoint partition (fuel : nat) (maxGap : Z) (rs : list (Z * Z)) (j : nat) : option (list part) :=
+  match rs with
+  | [] => Some []
+  | (s, e) :: r =>
+      match fuel with
+      | O => None
+      | S f =>
+          let '(pend, rest, k) := grow maxGap e r (S j) in
+          match partition f maxGap rest k with
+          | Some ps => Some ((s, pend, j, k) :: ps)
+          | None => None
+          end
+      end
+  end.
+
 (* ---- cases ------------------------------------------------------------------- *)
 Inductive case :=
 | CSel (idx : list series) (ext : lset) (ext_ok : bool) (ms : list matcher) (mint maxt : Z)
        (impls : list (list series))      (* one answer per configuration / repetition, canonically sorted *)
-       (oracle : list series).           (* TSDB reader: same canonical order *)
+       (oracle : list series)            (* TSDB reader: same canonical order *)
+| CPart (maxGap : Z) (rs : list (Z * Z)) (impl : list part).
 
 Definition kv_eqb (a b : str * str) : bool := str_eqb (fst a) (fst b) && str_eqb (snd a) (snd b).
 Definition chunk_eqb (a b : chunk) : bool :=
@@ -258,14 +287,34 @@ Definition set_eqb (a b : list series) : bool :=
   Nat.eqb (length a) (length b)
   && forallb (fun x => existsb (series_eqb x) b) a && forallb (fun x => existsb (series_eqb x) a) b.
 
+Definition part_eqb (a b : part) : bool :=
+  let '(a1, a2, a3, a4) := a in let '(b1, b2, b3, b4) := b in
+  (a1 =? b1) && (a2 =? b2) && Nat.eqb a3 b3 && Nat.eqb a4 b4.
+
+(* the property of a partition, on the implementation's own output: element ranges are
+   contiguous from 0 to the number of ranges, every part is non-empty, and every range
+   lies inside the [Start, End] of the part that holds it *)
+Fixpoint parts_cover_from (rs : list (Z * Z)) (ps : list part) (j : nat) : bool :=
+  match ps with
+  | [] => Nat.eqb j (length rs)
+  | (st, en, pj, pk) :: r =>
+      Nat.eqb pj j && Nat.ltb pj pk
+      && forallb (fun x : Z * Z => (st <=? fst x) && (snd x <=? en)) (firstn (pk - pj) (skipn pj rs))
+      && parts_cover_from rs r pk
+  end.
+Definition parts_cover (rs : list (Z * Z)) (ps : list part) : bool := parts_cover_from rs ps 0.
+
 Definition corr_ok (c : case) : bool :=
   match c with
   | CSel idx ext ext_ok ms mint maxt impls _ =>
       let model := answer idx ext ext_ok ms mint maxt in
       forallb (fun impl => set_eqb model impl) impls
+  | CPart g rs impl =>
+      option_eqb (list_eqb part_eqb) (partition (length rs) g rs 0%nat) (Some impl)
   end.
 
 Definition pred_ok (c : case) : bool :=
   match c with
   | CSel _ _ _ _ _ _ impls oracle => forallb (fun impl => list_eqb series_eqb impl oracle) impls
+  | CPart g rs impl => parts_cover rs impl
   end.
